@@ -303,3 +303,51 @@ def roots(prog, body, place_or_op, depth=0):
         else:
             out.add(("?", o.kind))
     return out
+
+
+def expand_params(prog, e, depth=2, _seen=None):
+    """the alternatives of a tree after replacing each parameter leaf of a (non-closure) function by what its callers pass:
+    a value handed to a private helper is judged as the expression the caller computed.  Returns a set of trees (the tree itself when
+    a parameter has no caller); depth bounds the number of call levels climbed."""
+    if depth <= 0 or not isinstance(e, tuple):
+        return {e}
+    if e[0] == "param":
+        fn = prog.lib(e[1]) if hasattr(prog, "lib") else None
+        if fn is None or fn.kind == "closure":
+            return {e}
+        cs = [c for c in prog.callers_of(fn)]
+        if not cs:
+            return {e}
+        out = set()
+        for c in cs:
+            args = c.node.get("args") or []
+            if e[2] - 1 >= len(args):
+                return {e}
+            for a in prov(prog, c.body, args[e[2] - 1]):
+                a2 = _wrap_fields(a, e[3])
+                out |= expand_params(prog, a2, depth - 1)
+        return out or {e}
+    if e[0] in ("elem",):
+        return {(e[0], x, e[2]) for x in expand_params(prog, e[1], depth)}
+    if e[0] == "field":
+        return {("field", x, e[2]) for x in expand_params(prog, e[1], depth)}
+    if e[0] == "call":
+        import itertools
+
+        alts = [sorted(expand_params(prog, a, depth), key=repr) for a in e[2]]
+        if any(len(a) > 3 for a in alts):
+            return {e}
+        return {("call", e[1], tuple(c), e[3]) for c in itertools.product(*alts)}
+    if e[0] in ("agg", "op"):
+        import itertools
+
+        alts = [sorted(expand_params(prog, a, depth), key=repr) for a in e[2]]
+        if any(len(a) > 3 for a in alts):
+            return {e}
+        return {(e[0], e[1], tuple(c)) for c in itertools.product(*alts)}
+    if e[0] == "alt":
+        out = set()
+        for a in e[1]:
+            out |= expand_params(prog, a, depth)
+        return out
+    return {e}
